@@ -63,6 +63,7 @@ type propSpec struct {
 	QuickRuns, ThoroughRuns int
 	QuickWall, ThoroughWall time.Duration
 	Rule                    string
+	Chunk                   int // seeds per worker process (1 where a library keeps cross-run state, e.g. yamux timer pool)
 	Real                    []string
 	Stub                    []string
 	Assume                  []string
@@ -123,6 +124,17 @@ func runWorker(bin string, env []string, timeout time.Duration) workerOut {
 	}
 	out.stderr = tail(stderr.String(), 4000)
 	return out
+}
+
+// workerWatchdog bounds one worker process: generous per run, never the whole budget.
+func workerWatchdog(runs int) time.Duration {
+	d := 60*time.Second + time.Duration(runs)*4*time.Second
+	if v := os.Getenv("VSIM_WATCHDOG_S"); v != "" {
+		if n, err := strconv.Atoi(v); err == nil {
+			d = time.Duration(n) * time.Second
+		}
+	}
+	return d
 }
 
 // ---- replay files ----
@@ -416,6 +428,9 @@ func cmdCheck(args []string) int {
 	// seed space: VERIF_SEED selects a disjoint block of seeds
 	seed0 := uint64(baseSeed)*1_000_003 + 17
 	chunk := 25
+	if spec.Chunk > 0 {
+		chunk = spec.Chunk
+	}
 	type job struct {
 		profile string
 		start   uint64
@@ -453,7 +468,7 @@ func cmdCheck(args []string) int {
 					"VSIM_PROFILE=" + j.profile,
 					fmt.Sprintf("VSIM_SEEDS=%d:%d", j.start, j.count),
 					fmt.Sprintf("VSIM_WALL_MS=%d", time.Until(deadline).Milliseconds()+2000),
-				}, 10*time.Minute)
+				}, workerWatchdog(j.count))
 				mu.Lock()
 				all = append(all, out.results...)
 				if out.err != nil {
